@@ -200,9 +200,21 @@ def run(ctx):
             ncol += 1
             if nm != "fof" and o.colossus_name != nm:
                 viol("colossus/round-trip", f"from_colossus_name({nm!r}).colossus_name = {o.colossus_name!r}")
-        for o in [md.SOMean(overdensity=200), md.SOCritical(overdensity=500), md.SOVirial(), md.FOF()]:
-            if md.from_colossus_name(o.colossus_name) != o:
-                viol("colossus/round-trip-object", f"{o}: name -> definition does not give an equal definition")
+        for o in [md.SOMean(overdensity=200), md.SOCritical(overdensity=500), md.SOVirial(), md.FOF(),
+                  md.SOMean(overdensity=200.0), md.SOMean(overdensity=np.float64(300.0)), md.SOCritical(overdensity=500.0), md.SOCritical(overdensity=np.float64(2500.0)),
+                  md.SOMean(overdensity=np.int64(800))]:       # integer-valued overdensities however they are typed
+            ncol += 1
+            try:
+                nm_ = o.colossus_name
+                back_ = md.from_colossus_name(nm_)
+            except Exception as e:
+                viol("colossus/round-trip-object", f"{type(o).__name__}(overdensity={o.params.get('overdensity')!r}): colossus name {getattr(o, 'colossus_name', None)!r} does not parse back ({type(e).__name__}: {e})",
+                     {"definition": type(o).__name__, "overdensity": repr(o.params.get("overdensity"))})
+                continue
+            if back_ != o:
+                viol("colossus/round-trip-object", f"{o}: name {nm_!r} -> definition does not give an equal definition", {"definition": type(o).__name__, "overdensity": repr(o.params.get("overdensity"))})
+            if isinstance(o, (md.SOMean, md.SOCritical)) and nm_ != f"{int(o.params['overdensity'])}{'m' if isinstance(o, md.SOMean) else 'c'}":
+                viol("colossus/name-format", f"{type(o).__name__}(overdensity={o.params['overdensity']!r}).colossus_name = {nm_!r}, colossus writes integer overdensities as '<int>m' / '<int>c'", {"definition": type(o).__name__, "overdensity": repr(o.params.get("overdensity"))})
         if not (md.SOMean(overdensity=200) == md.SOMean(overdensity=200) and md.SOMean(overdensity=200) != md.SOMean(overdensity=300)
                 and md.SOMean(overdensity=200) != md.SOCritical(overdensity=200) and md.SOGeneric() == md.SOCritical(overdensity=7)):
             viol("eq-semantics", "MassDefinition.__eq__ no longer compares class name and parameters (SOGeneric equal to any SO)")
